@@ -342,12 +342,19 @@ def main():
     body_def("flagsEncode", "(auth priv reportable : Bool) : Int", flags_encode_builder, "0")
 
     def bulk_bound_builder():
-        fn = func_ast(RAW.Client.bulkget)
-        stmts = fn.body
-        # statements n = ..., m = ..., r = ..., expected_max_varbinds = ...
+        # statements n = ..., m = ..., r = ..., expected_max_varbinds = ... in whichever Client
+        # method performs the GETBULK exchange
         wanted = ["n", "m", "r", "expected_max_varbinds"]
-        sel = [s for s in stmts if isinstance(s, ast.Assign) and isinstance(s.targets[0], ast.Name) and s.targets[0].id in wanted]
-        if [s.targets[0].id for s in sel] != wanted:
+        sel = None
+        for name, member in vars(RAW.Client).items():
+            if not inspect.isfunction(member):
+                continue
+            stmts = func_ast(member).body
+            cand = [s for s in stmts if isinstance(s, ast.Assign) and isinstance(s.targets[0], ast.Name) and s.targets[0].id in wanted]
+            if [s.targets[0].id for s in cand] == wanted:
+                sel = cand
+                break
+        if sel is None:
             raise Untranslatable("bound statements not found")
         tr = Tr({"non_repeaters": "nonRepeaters", "len(oids)": "nOids", "max_list_size": "maxListSize"})
         return tr.block(sel, lambda t: t.env["expected_max_varbinds"])
